@@ -150,11 +150,14 @@ func goAtLeast121(v string) bool {
 	return maj > 1 || (maj == 1 && min >= 21)
 }
 
-var goPreRE = regexp.MustCompile(`[a-z]`)
+// a patch number followed by a pre-release suffix ("1.22.0rc1") passes GoVersionRE but is
+// not a Go version (go/version.IsValid rejects it); the documented order is undefined
+// for it and the exclude-block check is skipped.
+var goNotAVersionRE = regexp.MustCompile(`^\d+\.\d+\.\d+[a-z]`)
 
 // c16Sorted: every block of the result is sorted by its documented comparator.
-// shape "K7": exclude block of a file whose go version carries a pre-release suffix
-// (SortBlocks compares "v"+version as a semantic version, which such versions are not).
+// (K7, repaired in /repo 2e40111: pre-release go versions such as 1.22rc1 selected the
+// lexical order; the oracle flags it if it returns.)
 func c16Sorted(c editCase) (msg string, shape string) {
 	run, err := editExec(c)
 	if err != nil || run.panicAt >= 0 {
@@ -176,6 +179,9 @@ func c16Sorted(c editCase) (msg string, shape string) {
 		}
 		less := specLexLess
 		name := "lexical"
+		if !c.Work && b.Token[0] == "exclude" && goNotAVersionRE.MatchString(gov) {
+			continue
+		}
 		if !c.Work && b.Token[0] == "exclude" && goAtLeast121(gov) {
 			less, name = specExcludeLess, "path-then-semver"
 		} else if !c.Work && b.Token[0] == "retract" {
@@ -184,9 +190,6 @@ func c16Sorted(c editCase) (msg string, shape string) {
 		for i := 0; i+1 < len(b.Line); i++ {
 			if less(b.Line[i+1].Token, b.Line[i].Token) {
 				shape := ""
-				if name == "path-then-semver" && goPreRE.MatchString(gov) {
-					shape = "K7"
-				}
 				return fmt.Sprintf("%s block not in %s order: %q before %q\noutput:\n%s", b.Token[0], name, b.Line[i].Token, b.Line[i+1].Token, out), shape
 			}
 		}
